@@ -14,9 +14,15 @@ CHECKS = {
     "C06": dict(cat="translation_validation", tech="symbolic execution of the hypersingular / Maxwell / single-layer assemblers through the public API with an uninterpreted kernel and symbolic complex wavenumber; entrywise polynomial identities (cvc5/z3)",
                 text="The decomposition identities W = sum C'V0C - k^2 sum N'V1N (Laplace, Helmholtz, modified Helmholtz) and E = -ik sum R'V1R - (1/ik) D'V0D are proved entry by entry (regular + singular parts) for every geometry, kernel value and wavenumber on base meshes of <= 6 (8) elements; W.1 = 0 on closed meshes; symmetry of the non-adjacent EFIE block under a symmetric kernel.",
                 ref="3/C06"),
+    "C07": dict(cat="translation_validation", tech="symbolic execution of the dense boundary assembler and of the potential assembler with one uninterpreted kernel on free geometry; entrywise polynomial identities with UFs (cvc5/z3)",
+                text="Boundary matrices between two disjoint grids (single and double layer; Laplace, Helmholtz, modified Helmholtz) are proved equal, entry by entry and for every geometry / kernel value, to the potential of each trial basis function evaluated at map_to_point_cloud's points and tested by quadrature, on 1-2 x 1-2 element grids (4-5 thorough), orders 1-2 (3).",
+                ref="3/C07"),
     "C12": dict(cat="other", tech="symbolic execution of the rule constructors (z3 terms) + SMT (LIA path exploration for unbounded orders, LRA over all polynomials with symbolic coefficients, NRA for Duffy region maps)",
                 text="Bounded symbolic verification: lookups decided for every integer order (all paths of the real lookup code), exactness decided for every polynomial of the stated degree for all 20 triangle / 30 Gauss orders and Duffy orders 2..4 (5 thorough), region maps for all 1-D nodes in (0,1), remaps for every point. unsat = holds for all values within these bounds.",
                 ref="3/C12"),
+    "C17": dict(cat="translation_validation", tech="symbolic execution of the FMM glue (fmm_assembler, exafmm interface, near-field helpers, map_to_points) with a fake exact-summation exafmm and an uninterpreted kernel family vs the dense assembler; polynomial identities with UFs (cvc5/z3) + NRA kernel lemmas",
+                text="For a symbolic vector and free geometry the FMM-mode matvec equals the dense-mode matvec row by row for scalar, hypersingular and Maxwell electric-field operators (whole-grid, boundary-dof and segment spaces) and scalar potentials, with the far field replaced by exact summation (both through a fake exafmm and through the library's own dense_evaluation switch); the kernel relations used to couple both paths are proved for the real kernels.",
+                ref="3/C17"),
     "C20": dict(cat="translation_validation", tech="LLVM-IR (clang on the current OpenCL headers) symbolic interpreter vs symbolic execution of the Numba kernels; per-lane equivalence queries in QF_NRA with abstracted sqrt/exp/cos/sin + congruence (z3/cvc5)",
                 text="Translation validation of two hand translations of the same formulas: every OpenCL kernel variant (14 kernels x 4 widths x 2 precisions) and the 4 shapeset headers are proved equal, lane by lane and path by path, to the Numba function the selection tables pair them with, for all real inputs with distinct points.",
                 ref="3/C20"),
